@@ -953,6 +953,8 @@ func cacheViewFromFile(
 					err = appendCompositeError(err, scope.Tx.FileContainer.Close(h))
 					return
 				}
+				// Another process may have written the file anew since it was read: detect encoding and positions again.
+				fileInfo.ResetDetectedAttributes()
 			}
 			fileInfo.Handler = h
 			fp = h.File()
